@@ -15,14 +15,15 @@ PREFS = ["current", "first", "last"]
 
 
 def expressible(d, f, pd, pm, today):
-    """the datetime the format can express, completed as parse_with_formats does"""
+    """the datetime the format expresses, completed per the preferences: a missing year is the current year, a missing month / day is the
+    first, last or current one — 'last' being the last day of that month *in that year*"""
     has = lambda *xs: any(x in f for x in xs)  # noqa
     y = d.year if has("%Y") else ((2000 + d.year % 100 if d.year % 100 <= 68 else 1900 + d.year % 100) if has("%y") else today.year)
     m = d.month if has("%m", "%B", "%b") else {"first": 1, "last": 12, "current": today.month}[pm]
     if has("%d"):
         day = d.day
     else:
-        last = calendar.monthrange(y if has("%Y", "%y") else 1900, m)[1]
+        last = calendar.monthrange(y, m)[1]
         day = {"first": 1, "last": last, "current": min(today.day, last)}[pd]
     hour = d.hour if has("%H") else (d.hour if has("%I") and has("%p") else (d.hour % 12 if has("%I") else 0))
     mi = d.minute if has("%M") else 0
@@ -70,8 +71,8 @@ def run(ctx):
             if any(x in f for x in ("%B", "%b", "%A", "%a", "%p")) and R.random() < 0.3:
                 cases.append({"s": R.choice([s.lower(), s.upper()]), "langs": ["en"], "settings": st, "fmts": [f], "today": today, "expect": expect_str(exp, period=period), "stratum": "english/case"})
     # partial formats × all nine preference pairs (what the format cannot express is completed per the preferences)
-    for f in ["%Y", "%y", "%B %Y", "%m/%Y", "%Y %H:%M", "%d %B", "%H:%M"]:
-        for d in dates[:6] + dates[-2:]:
+    for f in ["%Y", "%y", "%B %Y", "%m/%Y", "%Y %H:%M", "%d %B", "%H:%M", "%B", "%b", "%m", "%B %H:%M"]:
+        for d in dates[:6] + dates[-2:] + [D(2015, 2, 10, 8, 5), D(2016, 4, 30, 22, 0)]:
             if ("%y" in f and not (1969 <= d.year <= 2068)) or ("%Y" in f and d.year < 1000):
                 continue
             if not ("%Y" in f or "%y" in f) and (d.month, d.day) == (2, 29):
@@ -83,7 +84,10 @@ def run(ctx):
                                   "fmts": [f], "today": today, "expect": expect_str(exp, period=period), "stratum": "partial-all-prefs"})
                     # the custom-format parser takes 'current' day / month and a missing year from the system clock: the same law under
                     # controlled clocks (a 30-day month, the end of February in a common and in a leap year, the 31st)
-                    for ck in (CLOCKS if tier != "quick" else [CLOCKS[(len(cases) // 7) % len(CLOCKS)]]):
+                    cks = CLOCKS if tier != "quick" else [CLOCKS[(len(cases) // 7) % len(CLOCKS)]]
+                    if d.month == 2 and not ("%Y" in f or "%y" in f):
+                        cks = cks + [D(2028, 7, 4, 10, 0)]      # a February named without a year, in a leap year
+                    for ck in cks:
                         if not ("%Y" in f or "%y" in f) and (d.month, d.day) == (2, 29):
                             continue
                         exp2, period2 = expressible(d, f, pd, pm, ck)
